@@ -1,1 +1,3 @@
 import Generated.Stages
+import Generated.Tables
+import Generated.Printer
